@@ -273,8 +273,8 @@ def availSide (cx : DCtx) (ins : Instr) (mult : Option Rat) (isBuy : Bool) : Exc
 def findAvailable (cx : DCtx) (price : Rat) (ls : List Level) : List Level :=
   ls.filter (fun l => cx.num.mul (cx.num.sub 1 matchErr) price < l.price ∧ l.price < cx.num.mul (cx.num.add 1 matchErr) price)
 
-/-- `sum([Decimal(x[1]) for x in orders])` -/
-def sumSizes (cx : DCtx) (ls : List Level) : Rat := ls.foldl (fun acc l => cx.num.add acc l.size) 0
+/-- `sum([Decimal(str(x[1])) for x in orders])`: the sizes as they print, the way the fill loop reads them -/
+def sumSizes (cx : DCtx) (ls : List Level) : Rat := ls.foldl (fun acc l => cx.num.add acc (cx.reprD l.size)) 0
 
 structure Req where
   name     : String
@@ -321,7 +321,7 @@ def checkTx (cx : DCtx) (c : TokenCfg) (book : List Instr) (r : Req) (isBuy : Bo
             match findAvailable cx p avail with
             | [] => .error (.demeter "no-order-at-price")
             | l :: _ =>
-              if amount > l.size then .error (.demeter "insufficient-depth")
+              if amount > cx.reprD l.size then .error (.demeter "insufficient-depth")
               else .ok { amount := amount, ins := ins, price := some (cx.reprD l.price) }
           | none =>
             if amount > sumSizes cx avail then .error (.demeter "insufficient-depth")
